@@ -134,6 +134,13 @@ pub fn cmd_run(args: &[String]) -> i32 {
                 ri.is_confirmed_lwt = lwt_kind == 2;
                 ri.consistency = if lwt_kind == 3 { Consistency::LocalSerial } else { Consistency::Quorum };
                 ri.node_location_preference = &pref_val;
+                // the request's serial consistency: the plan must not depend on it
+                let serial_kind = rng.random_range(0..3);
+                ri.serial_consistency = match serial_kind {
+                    0 => None,
+                    1 => Some(scylla::statement::SerialConsistency::Serial),
+                    _ => Some(scylla::statement::SerialConsistency::LocalSerial),
+                };
                 let policy = mk_policy();
                 let plan = raw_plan(policy.as_ref(), &ri, &state);
                 let plan_iter: Vec<(usize, i64)> = Plan::new(policy.as_ref(), &ri, &state).map(|(nd, s)| (node_of(nd.host_id), s as i64)).collect();
@@ -148,7 +155,7 @@ pub fn cmd_run(args: &[String]) -> i32 {
                     "attr": attr.iter().map(|(d, r)| json!([d, r])).collect::<Vec<_>>(),
                     "strat": strat_rec, "q": q, "en": en, "al": al,
                     "tokenaware": token_aware as i64, "pref": [pk, pdc, prack], "inherit": inherit as i64, "failover": failover as i64, "shuffle": shuffle as i64,
-                    "lwt": (lwt_kind >= 2) as i64,
+                    "lwt": (lwt_kind >= 2) as i64, "serial": serial_kind,
                     "plan": plan, "plan_iter": plan_iter, "variants": variants
                 })
             }));
